@@ -227,6 +227,14 @@ def remove_SplitSliceRead(op, arch):
                 return False
             if consumer.ifm2 == op.ofm and len(consumer.ifm_shapes) > 1 and consumer.ifm_shapes[1] != op.ofm_shapes[0]:
                 return False
+            # Nor can a binary elementwise consumer that broadcasts the slice: the IFM box of a broadcast operand is
+            # obtained by clipping the OFM box to the operand's tensor, not to the window that the slice reads
+            if (
+                consumer.type.is_binary_elementwise_op()
+                and len(consumer.ofm_shapes) > 0
+                and consumer.ofm_shapes[0] != op.ofm_shapes[0]
+            ):
+                return False
             return True
 
         # Check if it is possible to put the SplitSliceRead on the tensor consumer(s),
